@@ -144,6 +144,13 @@ pub fn enabled<P: Proto>(w: &ClientWorld<P>, cfg: &Cfg) -> Vec<(CAct, u8)> {
                     if sent < 3 {
                         v.push((CAct::U(UReq::Publish { qos: 0 }), 0));
                     }
+                    // the connection is lost for another reason (ping possibly outstanding)
+                    if w.mon.errors().len() < 2 {
+                        v.push((CAct::Fail, 1));
+                    }
+                }
+                if !connected && !w.mon.errors().is_empty() {
+                    v.push((CAct::Reconnect { sp: false }, 0));
                 }
             } else {
                 // connection phase: CONNACK never / late
@@ -220,6 +227,16 @@ fn plans(prop: &str, tier: Tier) -> Vec<Plan> {
                         v.push(Plan { cfg: c, depth_by_devs: vec![8, 8, 7] });
                     }
                 }
+            }
+            // MQTT 5: the resumed session announces a smaller receive maximum than the ids
+            // still unacknowledged from the previous connection
+            for (limit, next) in [(2u16, 1u16), (3, 1), (4, 2)] {
+                if q && limit > 3 {
+                    continue;
+                }
+                let mut c = Cfg::base("C02", true, limit);
+                c.recv_max_next = Some(next);
+                v.push(Plan { cfg: c, depth_by_devs: if q { vec![6, 6, 6] } else { vec![8, 8, 8] } });
             }
         }
         "C07" => {
@@ -311,7 +328,7 @@ fn plans(prop: &str, tier: Tier) -> Vec<Plan> {
             for v5 in [false, true] {
                 let mut c = Cfg::base("C18", v5, 10);
                 c.keep_alive_s = 5;
-                v.push(Plan { cfg: c.clone(), depth_by_devs: vec![if q { 13 } else { 17 }] });
+                v.push(Plan { cfg: c.clone(), depth_by_devs: if q { vec![13, 12] } else { vec![17, 16, 14] } });
                 if !v5 {
                     // (the MQTT 5 options do not accept a zero keep-alive)
                     let mut z = Cfg::base("C18", v5, 10);
